@@ -38,13 +38,18 @@ ASSUME \A c \in {"cube", "box123", "box511", "sheared"} :
           LET cell == Catalogue[c] d == << cell[2][1] - cell[1][1], cell[2][2] - cell[1][2], cell[2][3] - cell[1][3] >> IN
           d[2] = 0 /\ d[3] = 0 /\ \A k \in {1, 4, 5, 8} : << cell[k][1] + d[1], cell[k][2], cell[k][3] >> \in { cell[j] : j \in {2, 3, 6, 7} }
 Neighbour(cell) == LET dx == cell[2][1] - cell[1][1] IN [k \in 1..8 |-> << cell[k][1] + dx, cell[k][2], cell[k][3] >>]
+\* the same neighbour with its far side pushed sideways: the pair is no straight continuation (the line between the two
+\* centres does not pass through the centre of the common side)
+BentNeighbour(cell) == LET n == Neighbour(cell) IN [k \in 1..8 |-> IF k \in {2, 3, 6, 7} THEN << n[k][1], n[k][2] + 1, n[k][3] + 1 >> ELSE n[k]]
 
 VARIABLE x
 GenInit == x = 0
 GenSpec == GenInit /\ [][UNCHANGED x]_x
 GenEmit == PrintT(ToJson([ hex |-> Catalogue, hexperms |-> HexPerms, quad |-> QuadCat, quadperms |-> QuadPerms,
                            neighbours |-> [ cube |-> Neighbour(Catalogue.cube), box123 |-> Neighbour(Catalogue.box123),
-                                            box511 |-> Neighbour(Catalogue.box511), sheared |-> Neighbour(Catalogue.sheared) ] ]))
+                                            box511 |-> Neighbour(Catalogue.box511), sheared |-> Neighbour(Catalogue.sheared),
+                                            cube_bent |-> BentNeighbour(Catalogue.cube), box123_bent |-> BentNeighbour(Catalogue.box123),
+                                            sheared_bent |-> BentNeighbour(Catalogue.sheared) ] ]))
 
 \* ---------------------------------------------------------------- judge
 Recs == JsonDeserialize(IOEnv.VERIF_TRACE_FILE).recs
